@@ -132,8 +132,8 @@ where
 }
 
 pub fn random_histories(ctx: &mut Ctx) {
-    let nh = ctx.by_tier(6, 60);
-    let steps = ctx.by_tier(300, 1200);
+    let nh = ctx.by_tier(20, 120);
+    let steps = ctx.by_tier(400, 1500);
     let mut rng = ctx.rng(0xC01);
     for h in 0..nh {
         for kind in 0..3 {
